@@ -84,7 +84,7 @@ def spec_crosscheck(sc: dict) -> None:
             raise MachineryError(f"spec/renderer cross-check: placeholder position {sc}")
         if e["t"] == "nan":
             continue
-        vals = {**sk.ORIGINAL, **{sk.COLMAP[c]: float(sc["vals"][i - 1][c]) for c in cfg["cols"]}}
+        vals = {**sk.ORIGINAL, **(sk.y0_of(sc) or {}), **{sk.COLMAP[c]: float(sc["vals"][i - 1][c]) for c in cfg["cols"]}}
         ke = sk.kineff(cfg["variant"], vals["k_in"], vals["x"], vals.get("q"))
         if (e["traj"]["x0"], e["traj"]["k"], e["traj"]["kineff"], e["fl"]["k"], e["fl"]["kineff"]) != \
                 (vals["x"], vals["k"], ke, vals["k"], ke):
@@ -361,7 +361,16 @@ def generate(ctx: Ctx, rep: Report) -> list[dict]:
     num = 14 if ctx.quick else 150
     jobs.append(("ParMap.tla", "ParMap_gen.cfg", {"simulate": f"num={num}", "depth": 90, "seed": ctx.seed % 100000, "workers": 16,
                                                    "coverage": True}))
+    jobs.append(("ParMap.tla", "ParMap_gen_y0.cfg", {"simulate": f"num={4 if ctx.quick else 30}", "depth": 90,
+                                                      "seed": ctx.seed % 100000 + 1, "workers": 16}))
+    jobs.append(("ParMap.tla", "ParMap_y0again.cfg", {"expect_violation": True, "workers": 2}))
     res = _tlc_many(ctx, jobs)
+    y0again, gen_y0 = res.pop(), res.pop()
+    if y0again.violated != "RowIndependent":
+        raise MachineryError("the wrong instance 'y0 applied again after the row' should violate RowIndependent; "
+                             f"TLC said {y0again.violated!r}")
+    rep.notes["y0_after_row_counterexample"] = ("TLC: RowIndependent violated for Y0Again=TRUE: y0 replaces the row's "
+                                                "initial value, the assignment-defined parameter follows y0")
     if res[0].violated != "RowIndependent":
         raise MachineryError("the implementation-shaped sequential mode (shared model, lazy fluxes) should violate "
                              f"RowIndependent; TLC said {res[0].violated!r}: the specification has lost its teeth")
@@ -375,8 +384,10 @@ def generate(ctx: Ctx, rep: Report) -> list[dict]:
     gen = res[-1]
     rep.add_tlc(gen, "configuration + schedule generator (-simulate, seeded): emitted scans with expected value tables")
     rep.require_coverage(gen, ["Setup", "Start", "Tick", "Collect", "Finished"])  # Take..Evaluate sit under a quantifier of Next: witnessed by the emitted schedules
+    rep.add_tlc(gen_y0, "focused generator (-simulate): y0= given, assignment-defined parameter, initial-value column "
+                        "present or absent, every kind")
     seen, scs = set(), []
-    for p in sorted(gen.payloads, key=lambda p: json.dumps(p, sort_keys=True)):
+    for p in sorted(gen.payloads + gen_y0.payloads, key=lambda p: json.dumps(p, sort_keys=True)):
         key = case_key(p)
         if key in seen:
             continue
